@@ -63,6 +63,9 @@ type wrap struct {
 	inner   distsys.ArchetypeResource
 	rec     *recorder
 	pcDelay time.Duration // > 0: PreCommit succeeds (or fails) only after this delay — the "slow sibling"
+	// refusalDelay > 0: a refused Read/Write is handed back to the context only after this delay (the calling
+	// goroutine being descheduled between the resource's timeout and the context's abort)
+	refusalDelay time.Duration
 }
 
 var _ distsys.ArchetypeResource = &wrap{}
@@ -75,6 +78,9 @@ func (w *wrap) Index(iface distsys.ArchetypeInterface, index tla.Value) (distsys
 
 func (w *wrap) ReadValue(iface distsys.ArchetypeInterface) (tla.Value, error) {
 	v, err := w.inner.ReadValue(iface)
+	if err != nil && w.refusalDelay > 0 {
+		time.Sleep(w.refusalDelay)
+	}
 	arg := ""
 	if err == nil {
 		arg = v.StripVClock().String()
@@ -85,6 +91,9 @@ func (w *wrap) ReadValue(iface distsys.ArchetypeInterface) (tla.Value, error) {
 
 func (w *wrap) WriteValue(iface distsys.ArchetypeInterface, value tla.Value) error {
 	err := w.inner.WriteValue(iface, value)
+	if err != nil && w.refusalDelay > 0 {
+		time.Sleep(w.refusalDelay)
+	}
 	w.rec.add(w.name, "Write", value.StripVClock().String(), err)
 	return err
 }
@@ -217,7 +226,7 @@ func (r *faultRes) PreCommit(distsys.ArchetypeInterface) chan error {
 
 func (r *faultRes) Commit(distsys.ArchetypeInterface) chan struct{} { return nil }
 func (r *faultRes) Abort(distsys.ArchetypeInterface) chan struct{}  { return nil }
-func (r *faultRes) Close() error                                     { return nil }
+func (r *faultRes) Close() error                                    { return nil }
 
 // noClose shields a helper-side real resource from the per-run Close of helper contexts.
 type noClose struct{ distsys.ArchetypeResource }
